@@ -136,6 +136,15 @@ fn check_probe_zone(ctx: &Ctx, z: &MZone, tl: &mut Tally, fw: &mut (u64, u64)) {
     for l in ls {
         if let Some(f) = Fields::of_local(cyc, l, 3) {
             check_search(ctx, z, zr, &f, "probe_zones", tl);
+            // the same reading written with second 60 of the previous minute (I11): next to a leap record this is the notation of
+            // the inserted second itself, and it must still denote the instant that follows it
+            if f.s == 0 {
+                if let Some(p) = Fields::of_local(cyc, l - 1, 3) {
+                    if p.s == 59 {
+                        check_search(ctx, z, zr, &Fields { s: 60, ..p }, "probe_zones", tl);
+                    }
+                }
+            }
         }
     }
 }
